@@ -1942,6 +1942,13 @@ def r4_empty_selection_reported(ctx, rid):
                     if callers and callers <= impl:
                         impl.add(g)
                         grew = True
+    # the private filters the look-up itself applies (whoever else calls them): handed a selection, they narrow it
+    narrowers, todo = set(), [gn]
+    while todo:
+        for g in ctx.cg.callees(todo.pop()):
+            if g not in narrowers and g != gn and _is_private(g) and g.cls is gn.cls:
+                narrowers.add(g)
+                todo.append(g)
     for f, call in sorted(ctx.cg.call_sites_of(gn), key=lambda fc: (fc[0].module.rel, fc[1].lineno)):
         if f in impl:
             continue
@@ -2013,7 +2020,7 @@ def r4_empty_selection_reported(ctx, rid):
         # ---- a narrowing of the resolved selection (filter by operator / variable) is a selection of its own: a non-empty
         # selection narrowed to nothing must be reported AFTER the narrowing; a test placed before it does not count
         if r not in ("<returned>", "<iterated>"):
-            for st2, x, a_name in _narrowings(ctx, f, cfg, st, r, impl - {gn}):
+            for st2, x, a_name in _narrowings(ctx, f, cfg, st, r, narrowers):
                 extra = {} if a_name == x else {a_name: Len(1)}
                 if r not in (x, a_name):
                     extra[r] = Len(1)
